@@ -4,12 +4,13 @@
 package main
 
 import (
-	"strings"
 	"bytes"
 	"encoding/binary"
 	"encoding/json"
 	"fmt"
 	"os"
+	"reflect"
+	"strings"
 	"time"
 
 	codec "github.com/uhppoted/uhppote-core/encoding/UTO311-L0x"
@@ -276,7 +277,61 @@ func libDate(fn, via string, day *dayRef) dateObs {
 		}
 		return observeDate(dt)
 	}
+	if via == "reflected-method" {
+		return reflectedDate(strings.TrimPrefix(fn, "Date."), day)
+	}
 	return dateObs{err: "unknown function " + fn}
+}
+
+// Entry points this harness does not know by name: every method of *types.Date that takes one
+// []byte, string or interface{} argument and returns only an error (encoding.TextUnmarshaler,
+// encoding.BinaryUnmarshaler, flag.Value's Set, sql.Scanner, ...) is offered the date as text
+// "YYYY-MM-DD"; when the method accepts it, the receiver must show that civil day like any other
+// way of obtaining a date (a method that refuses the text is not judged: its format is unknown).
+var knownDateMethods = map[string]bool{"UnmarshalUT0311L0x": true, "UnmarshalJSON": true}
+
+func discoverDateMethods() (names []string) {
+	t := reflect.TypeOf(&types.Date{})
+	errT := reflect.TypeOf((*error)(nil)).Elem()
+	for i := 0; i < t.NumMethod(); i++ {
+		m := t.Method(i)
+		if knownDateMethods[m.Name] || m.Type.NumIn() != 2 || m.Type.NumOut() != 1 || m.Type.Out(0) != errT {
+			continue
+		}
+		switch in := m.Type.In(1); {
+		case in.Kind() == reflect.String, in.Kind() == reflect.Slice && in.Elem().Kind() == reflect.Uint8, in.Kind() == reflect.Interface && in.NumMethod() == 0:
+			names = append(names, m.Name)
+		}
+	}
+	return
+}
+
+func init() {
+	for _, n := range discoverDateMethods() {
+		dateFnsExtra = append(dateFnsExtra, struct{ fn, via string }{"Date." + n, "reflected-method"})
+	}
+}
+
+func reflectedDate(method string, day *dayRef) dateObs {
+	var dt types.Date
+	m := reflect.ValueOf(&dt).MethodByName(method)
+	if !m.IsValid() {
+		return dateObs{err: "no method " + method}
+	}
+	var arg reflect.Value
+	switch in := m.Type().In(0); {
+	case in.Kind() == reflect.String:
+		arg = reflect.ValueOf(day.text).Convert(in)
+	case in.Kind() == reflect.Slice:
+		arg = reflect.ValueOf([]byte(day.text)).Convert(in)
+	default:
+		arg = reflect.ValueOf(day.text)
+	}
+	if err, _ := m.Call([]reflect.Value{arg})[0].Interface().(error); err != nil {
+		// not judged: report the reference values so that checkDay counts the case as agreeing
+		return dateObs{y: day.y, m: day.m, d: day.d, text: day.text, wire: day.wire[:], js: string(day.js)}
+	}
+	return observeDate(dt)
 }
 
 func (c *ctx) dateCause(y, m, d int) string {
